@@ -163,7 +163,7 @@ class ExplicitStateGraph:
         self.randomize_nextstate_order = randomize_nextstate_order
 
         self.states_to_nodes = {}
-        self.initial_states = sorted(mdp.initial_state_dist().support, key=lambda s: self.rng.random())
+        self.initial_states = sorted([s for s, p in mdp.initial_state_dist().items() if p > 0], key=lambda s: self.rng.random())
         for s in self.initial_states:
             self._initialize_node(s)
 
@@ -186,7 +186,8 @@ class ExplicitStateGraph:
     def initial_value(self):
         v = 0
         for s, p in self.mdp.initial_state_dist().items():
-            v += self.states_to_nodes[s].value*p
+            if p > 0:
+                v += self.states_to_nodes[s].value*p
         return v
 
     def state_value_map(self):
@@ -221,7 +222,7 @@ class ExplicitStateGraph:
                 if len(set(node.action_order)) != len(node.action_order):
                     raise SpecificationException(f"Duplicate actions in state {s}: {node.action_order}")
                 raise AlgorithmException("Unexpanded nodes should not have next states explored")
-            action_nextstates = list(self.mdp.next_state_dist(s, a).support)
+            action_nextstates = [ns for ns, p in self.mdp.next_state_dist(s, a).items() if p > 0]
             if self.randomize_nextstate_order:
                 action_nextstates = sorted(action_nextstates, key = lambda _ : self.rng.random())
             for ns in action_nextstates:
@@ -332,6 +333,8 @@ class ExplicitStateGraph:
                 ai = action_index[a]
                 am[si, ai] = 1
                 for ns, prob in self.mdp.next_state_dist(s, a).items():
+                    if prob == 0:
+                        continue
                     reward = self.mdp.reward(s, a, ns)
                     if ns in state_index:
                         nsi = state_index[ns]
